@@ -79,6 +79,14 @@ def patterned(n):
     return (PAT * (n // len(PAT) + 1))[:n]
 
 FILES['x/static/one.txt'] = b'1'
+# names whose extension makes mimetypes report a content ENCODING (round-3 seed C13-r3-2): a real gzip member, a file that
+# only looks like one, a compressed SVG - what is served must still be the file's own bytes after undoing whatever
+# Content-Encoding the reply advertises
+import gzip as _gzip
+FILES['x/static/pre.js.gz'] = _gzip.compress(b'console.log("pre-compressed asset, long enough to matter");', mtime=0)
+FILES['x/static/misnamed.gz'] = b'this is not a gzip member at all, but it is longer than twenty bytes'
+FILES['x/static/logo.svgz'] = _gzip.compress(b'<svg xmlns="http://www.w3.org/2000/svg"><rect width="10" height="10"/></svg>', mtime=0)
+FILES['x/static/arch.tgz'] = b'short tgz'
 for _n in BIG_SIZES:
     FILES['x/static/big_%d.bin' % _n] = patterned(_n)
 FILES['x/big_65536.bin'] = patterned(65536)[:-1] + b'!'      # a large file just outside, different content
@@ -189,7 +197,7 @@ def coq_reply(reply):
 
 # ----------------------------------------------------------------- generation
 NAMES_IN = ['a.txt', 'sub', 'deep', 'index.html', 'empty.txt', 'b20.txt', 'b21.js', 'noext', 'data.bin', 'emptydir',
-            '%2e%2e', '%2e', 'static', 'ünï.txt']
+            '%2e%2e', '%2e', 'static', 'ünï.txt', 'pre.js.gz', 'misnamed.gz', 'logo.svgz', 'arch.tgz']
 NAMES_OUT = ['secret.txt', 'static_evil', 'static2', 'x', '_evil', '2', 'statica.txt', '.txt', 'nope']
 SPECIAL = ['/', '/', '/', '.', '..', '..', '%2e', '%2e%2e', '?', '//', '...', '%2f', '\\', '%00', ' .', '..;']
 
